@@ -53,7 +53,7 @@ def cases(ctx):
             k = rng.randint(1, nd)
             vs.append({"name": "v%d" % j, "dims": rng.sample(dims, k) if rng.random() < 0.5 else list(dims),
                        "internal": rng.random() < 0.4, "dtype": rng.choice(["float", "float", "obj"])})
-        yield {"type": "find", "dims": dims, "sizes": sizes, "coordt": {d: rng.choice(["int", "float", "str"]) for d in dims},
+        yield {"type": "find", "dims": dims, "sizes": sizes, "coordt": {d: rng.choice(["int", "float", "str", "int", "float", "str", "date", "dur"]) for d in dims},
                "vars": vs, "pattern": rng.choice(["cells"] * 4 + ["mixed"] * 3 + ["pervar"] * 2 + ["partial", "none", "all"] + ["infcells"] * 3),
                "p": rng.choice([0.2, 0.5, 0.8]), "inf": rng.random() < 0.3, "method": rng.choice(["isnull", "isnull", "isfinite"]),
                "ignore_as": rng.choice(["list", "set", "str", "tuple"]), "ignore_param": rng.random() < 0.25,
@@ -67,6 +67,10 @@ def _absent(rng, vals, typ):
     """A label the coordinate does not have - far away, or a near miss of an existing one (a longer / shorter string
     sharing its prefix, a fractional value on a whole-number axis, the next float)."""
     base = rng.choice(vals)
+    if typ == "date":
+        return np.datetime64("1999-01-01T00:00:00.000000001", "ns")
+    if typ == "dur":
+        return np.timedelta64(7, "ns")
     if typ == "str":
         cand = ["absent", str(base) + "0", str(base) + "_b", str(base)[:-1] or "q", str(base).upper() + "x"]
     elif typ == "int":
@@ -91,7 +95,10 @@ def build(case):
         n = sizes[d]
         t = case["coordt"][d]
         coords[d] = {"int": (np.arange(n) * 2 + 1)[rng.permutation(n)], "float": np.round(np.cumsum(rng.uniform(0.1, 1, n)), 3),
-                     "str": np.array(["k%d" % i for i in range(n)])}[t]
+                     "str": np.array(["k%d" % i for i in range(n)]),
+                     # points in time / durations as labels (a 'day' parameter): numpy's own time types, ns resolution
+                     "date": np.array(["2021-03-%02d" % (3 * i + 1) for i in range(n)], dtype="datetime64[ns]"),
+                     "dur": np.array([1500 * (i + 1) for i in range(n)], dtype="timedelta64[ms]").astype("timedelta64[ns]")}[t]
     full_shape = tuple(sizes[d] for d in dims)
     cellmask = rng.random(full_shape) < case["p"]          # True = this location has no data at all
     data = {}
@@ -147,12 +154,18 @@ def null_mask(arr, method):
     return ~np.isfinite(a)
 
 
+def _labs(ds, d):
+    """The labels of coordinate d as the values a user would name them by (numpy times stay numpy times)."""
+    v = ds[d].values
+    return list(v) if v.dtype.kind in "mM" else v.tolist()
+
+
 def brute_missing(ds, setting, method):
     """Independent definition: every variable entirely null at `setting` (absent coordinate => missing)."""
     for d, v in setting.items():
         if d not in ds.coords:
             return True
-        if not any(probe._cv(v) == probe._cv(x) for x in ds[d].values.tolist()):
+        if not any(probe._cv(v) == probe._cv(x) for x in _labs(ds, d)):
             return True
     for name in ds.data_vars:
         da = ds[name]
@@ -160,7 +173,7 @@ def brute_missing(ds, setting, method):
         idx = []
         for d in da.dims:
             if d in setting:
-                labels = [probe._cv(x) for x in ds[d].values.tolist()]
+                labels = [probe._cv(x) for x in _labs(ds, d)]
                 idx.append(labels.index(probe._cv(setting[d])))
             else:
                 idx.append(slice(None))
@@ -215,10 +228,10 @@ def run_case(ctx, case):
         if sorted(fn_args) != sorted(want_args):
             bad.append("searched dimensions %s, expected %s (ignore_dims=%r)" % (list(fn_args), want_args, spelled))
         else:
-            grid = list(itertools.product(*[fds[a].values.tolist() for a in fn_args]))
+            grid = list(itertools.product(*[_labs(fds, a) for a in fn_args]))
             want = [loc for loc in grid if brute_missing(fds, dict(zip(fn_args, loc)), method)]
             nloc, nmiss = len(grid), len(want)
-            got = [tuple(x.item() if isinstance(x, np.generic) else x for x in m) for m in missing]
+            got = [tuple(x.item() if (isinstance(x, np.generic) and x.dtype.kind not in "mM") else x for x in m) for m in missing]
             wk = [tuple(map(probe._cv, w)) for w in want]
             gk = [tuple(map(probe._cv, g)) for g in got]
             if len(set(gk)) != len(gk):
@@ -242,7 +255,7 @@ def run_case(ctx, case):
                 continue
         setting = {}
         for d in sub:
-            vals = ds[d].values.tolist()
+            vals = _labs(ds, d)
             setting[d] = rng.choice(vals)
             if rng.random() < 0.15:
                 setting[d] = _absent(rng, vals, case["coordt"][d])
@@ -268,7 +281,7 @@ def run_case(ctx, case):
         cdims, gdims = dims[:k], dims[k:]
         combos = {}
         for d in gdims:
-            vals = ds[d].values.tolist()
+            vals = _labs(ds, d)
             combos[d] = rng.sample(vals, rng.randint(1, len(vals)))
             if rng.random() < 0.3:
                 combos[d] = combos[d] + [_absent(rng, vals, case["coordt"][d])]
@@ -278,7 +291,7 @@ def run_case(ctx, case):
             ctx.count("absent_coordinate_requests")
         cs = None
         if cdims:
-            allc = list(itertools.product(*[ds[d].values.tolist() for d in cdims]))
+            allc = list(itertools.product(*[_labs(ds, d) for d in cdims]))
             cs = [dict(zip(cdims, c)) for c in rng.sample(allc, rng.randint(1, min(4, len(allc))))]
         try:
             with quiet():
